@@ -27,10 +27,6 @@ func propsForAccept(e *execState, tx *Tx, o *txObs) []string {
 		if strings.Contains(reason, "allowance") {
 			ps = append(ps, "C05")
 		}
-		if o.Code != 0 && o.Model.OK && a != nil {
-			// a valid bid refused: status handling or fixed-price acceptance rule
-			ps = append(ps, "C08")
-		}
 	case KModifyBid:
 		ps = append(ps, "C11")
 		if strings.Contains(reason, "not open") {
@@ -55,15 +51,14 @@ func (e *execState) modelAuctionBefore(id uint64) *MAuction {
 }
 
 func propsForTransfers(tx *Tx) []string {
+	// escrow equations (C01) are checked from the implementation's own records after every block
 	switch tx.Msg.Kind {
 	case KPlaceBid:
-		return []string{"C02", "C01", "C04", "C18"}
+		return []string{"C02", "C04"}
 	case KModifyBid:
-		return []string{"C11", "C02", "C01"}
+		return []string{"C11", "C02"}
 	case KCancel:
-		return []string{"C12", "C02", "C01"}
-	case KCreateFixed, KCreateBatch:
-		return []string{"C02", "C01"}
+		return []string{"C12", "C02"}
 	}
 	return []string{"C02"}
 }
@@ -73,11 +68,11 @@ func propsForField(f string) []string {
 	case f == "status":
 		return []string{"C08"}
 	case f == "end_times":
-		return []string{"C13", "C19"}
+		return []string{"C13"} // the first end time's immutability is C19's own oracle (terms.first_end_time)
 	case f == "last_matched_len":
 		return []string{"C13"}
 	case f == "remaining":
-		return []string{"C06", "C12"}
+		return []string{"C06"} // the zeroed remainder of a cancelled auction is C12's own oracle (cancel.remainder)
 	case f == "matched_price", f == "bid_matched":
 		return []string{"C16"}
 	case f == "queue_released":
@@ -85,15 +80,16 @@ func propsForField(f string) []string {
 	case f == "queue", f == "queue_count":
 		return []string{"C09"}
 	case strings.HasPrefix(f, "allowed["):
-		return []string{"C10", "C18", "C19"}
+		return []string{"C10", "C05"} // who may bid, and how much the allow-list granted
 	case f == "bid", f == "bid_count":
-		return []string{"C11", "C18", "C19"}
+		// interference between auctions is decided without the model (project.go, frame oracles)
+		return []string{"C11", "C18"}
 	case f == "bid_seq", f == "auction_seq", f == "auction_count", f == "id", f == "orphan":
 		return []string{"C19"}
 	case strings.HasPrefix(f, "params."):
 		return []string{"C18"}
 	case strings.HasPrefix(f, "balance["):
-		return []string{"C02", "C01"}
+		return []string{"C02"}
 	}
 	// immutable terms
 	return []string{"C19"}
@@ -246,50 +242,72 @@ func dedup(in []string) []string {
 }
 
 // classifyBeginMismatch: which properties does a begin-block transfer
-// disagreement speak to?
+// disagreement speak to? The transfers of each auction are split by what they
+// are (allocations, refunds, proceeds / unsold coins, releases) and only the
+// properties that state something about the part that differs are named;
+// escrow equations (C01), payment bounds (C04), allowance and supply bounds
+// (C05) and the instalment split (C09) have oracles of their own that read the
+// implementation's records and do not need the model.
 func (e *execState) classifyBeginMismatch(bo *blockObs, impl []MTransfer) []string {
-	props := []string{"C02"}
-	settle, release, batch := false, false, false
-	for _, ev := range bo.BeginFx.Events {
-		if strings.HasPrefix(ev, "settle:") {
-			settle = true
-			var id uint64
-			fmt.Sscanf(ev, "settle:%d", &id)
-			if a := e.modelAuctionBefore(id); a != nil && a.Type == TypeBatch {
-				batch = true
+	set := map[string]bool{"C02": true}
+	model := bo.BeginFx.Transfers
+	attributed := false
+	sub := func(ts []MTransfer, f func(t MTransfer) bool) []MTransfer {
+		var out []MTransfer
+		for _, t := range ts {
+			if f(t) {
+				out = append(out, t)
 			}
 		}
-		if strings.HasPrefix(ev, "release:") {
-			release = true
-		}
+		return out
 	}
-	// the implementation may have settled something the model did not
-	for _, t := range impl {
-		for _, a := range e.model.Auctions {
-			if t.From == a.SellEscrow || t.From == a.PayEscrow {
-				settle = true
-				if a.Type == TypeBatch {
-					batch = true
-				}
+	differ := func(f func(t MTransfer) bool) bool {
+		same, _ := sameTransfers(sub(model, f), sub(impl, f))
+		return !same
+	}
+	for _, a := range e.model.Auctions {
+		a := a
+		settleF := func(t MTransfer) bool { return t.From == a.SellEscrow || t.From == a.PayEscrow }
+		ms, is := sub(model, settleF), sub(impl, settleF)
+		if (len(ms) == 0) != (len(is) == 0) {
+			// one side settled (or extended) where the other did not
+			attributed = true
+			set["C08"] = true
+			if a.Type == TypeBatch {
+				set["C13"] = true
 			}
-			if t.From == a.VestEscrow {
-				release = true
+			continue
+		}
+		if differ(func(t MTransfer) bool { return t.From == a.SellEscrow && t.To != a.Auctioneer }) {
+			attributed = true
+			if a.Type == TypeBatch {
+				set["C03"] = true
+			} else {
+				set["C06"] = true
 			}
 		}
-	}
-	if settle {
-		props = append(props, "C01", "C04", "C05", "C09")
-		if batch {
-			props = append(props, "C03", "C13")
-		} else {
-			props = append(props, "C06")
+		if differ(func(t MTransfer) bool { return t.From == a.PayEscrow && t.To != a.VestEscrow && t.To != a.Auctioneer }) {
+			attributed = true
+			set["C04"] = true
+		}
+		if differ(func(t MTransfer) bool {
+			return (t.From == a.PayEscrow && (t.To == a.VestEscrow || t.To == a.Auctioneer)) || (t.From == a.SellEscrow && t.To == a.Auctioneer)
+		}) {
+			attributed = true // proceeds or unsold coins: who ends up with what (C02)
+		}
+		if differ(func(t MTransfer) bool { return t.From == a.VestEscrow }) {
+			attributed = true
+			set["C09"] = true
 		}
 	}
-	if release {
-		props = append(props, "C09", "C01")
+	if !attributed {
+		set["C08"] = true
 	}
-	if !settle && !release {
-		props = append(props, "C08")
+	var props []string
+	for _, p := range []string{"C02", "C03", "C04", "C06", "C08", "C09", "C13"} {
+		if set[p] {
+			props = append(props, p)
+		}
 	}
 	return props
 }
